@@ -141,6 +141,24 @@ func itemA() reflect.Type {
 	return reflect.TypeOf(Item{})
 }
 
+// item2A and item2B: two DISTINCT types that print alike AND carry different rules (whoever
+// confuses them by their printed name judges one by the other's rules).
+func item2A() reflect.Type {
+	type Item2 struct {
+		Name string `valid:"required|item2 name"`
+		N    int
+	}
+	return reflect.TypeOf(Item2{})
+}
+
+func item2B() reflect.Type {
+	type Item2 struct {
+		Name string
+		N    int `valid:"ge=5|item2 n"`
+	}
+	return reflect.TypeOf(Item2{})
+}
+
 func itemB() reflect.Type {
 	type Item struct {
 		Name string `valid:"required|item name"`
@@ -177,5 +195,7 @@ var Types = map[string]reflect.Type{
 	"Multi": reflect.TypeOf(Multi{}),
 	"Stamp": reflect.TypeOf(Stamp{}),
 	"ItemA": itemA(),
+	"Item2A": item2A(),
+	"Item2B": item2B(),
 	"ItemB": itemB(),
 }
